@@ -168,14 +168,16 @@ PROPS.update({
                "flattened streams, plus the boundary-state oracle after every emitted batch."),
         technique="Lean 4 proof (induction over the poll loop, algebraic law of the container fold) + model/implementation correspondence in both flavours",
         design_ref="DESIGN.md §6 C13"),
-    "C14": dict(adp_prop(["EyeballVerif.Props.C14"],
-        "c14_send_wakes / c14_direct_wakes / c14_limit_wakes: each kind of event wakes exactly what is registered; c14_limPoll_registers / c14_sub_pending_parked: a Pending source has registered the waker",
+    "C14": dict(adp_prop(["EyeballVerif.Props.C14", "EyeballVerif.Props.C14Pipe"],
+        "c14_pipe_pending_registered (for chains of any adapters of any depth, both stream flavours, any fuel: a poll that answers Pending leaves the bottom subscriber parked in the channel and every stage's limit/count stream "
+        "either ended or holding the waker — induction over the poll loop); c14_send_wakes / c14_direct_wakes / c14_limit_wakes: each kind of event wakes exactly what is registered; c14_limPoll_registers / c14_sub_pending_parked: a Pending source has registered the waker",
         engines=[{"name": "adp"}, {"name": "vec"}]),
-        claim=("Lean 4 theorems (first tier): every event that can make progress possible — a published update, the drop of the vector (c08_drop_wakes), a new limit/count value, the end of the limit stream — "
+        claim=("Lean 4 theorems: whenever polling a chain of adapters answers Pending, the waker is registered with the channel and with every limit/count stream that can still announce something "
+               "(c14_pipe_pending_registered, for all chains, by induction over the generic poll loop); every event that can make progress possible — a published update, the drop of the vector (c08_drop_wakes), a new limit/count value, the end of the limit stream — "
                "wakes exactly the wakers registered with that source (c14_send_wakes, c14_direct_wakes, c14_limit_wakes); a source that answered Pending has registered the waker (c14_sub_pending_parked, "
                "c14_limPoll_registers). Tied to the code by flag wakers checked around every poll and after every single operation for single adapters and chains (adp engine) and for the subscriber streams (vec engine). "
                "tokio's and the limit stream's registration behaviour are assumptions of the model, validated by these runs."),
-        technique="Lean 4 proof (registration/wake lemmas per source) + model/implementation correspondence with flag wakers after every operation",
+        technique="Lean 4 proof (pipeline-level registration invariant by induction over the poll loop; wake lemmas per source) + model/implementation correspondence with flag wakers after every operation",
         design_ref="DESIGN.md §6 C14"),
 })
 
